@@ -130,6 +130,7 @@ func c01(r *core.Report) {
 		return f
 	}
 	r.Assumption("the accept/reject iff itself (type dispatch over dynamic types, enum equality, float arithmetic, UTF-16 counting, regexp semantics, oneOf counting) is not decided; only its structural necessary conditions")
+	c01Unique(r)
 
 	// ---------------- C01.cmp
 	r.RunRule("C01.cmp", "keyword <-> comparison table: each bound keyword's failure site is guarded by exactly the negation of the JSON-Schema draft-4 relation between the value-derived operand and the operand derived from that keyword's Schema field (operand roles by dependency roots, not by name); exclusive bounds additionally guarded by their flag; uniqueItems by flag and checker(value); multipleOf tests value / bound; required tests key absence in value", 13, func() {
@@ -777,4 +778,53 @@ func underNilCase(body ast.Node, n ast.Node) bool {
 		}
 	}
 	return false
+}
+
+// c01Unique: the default uniqueItems checker compares items in one key space.
+func c01Unique(r *core.Report) {
+	p := r.Prog
+	info := p.Pkg("openapi3").TypesInfo
+	r.RunRule("C01.unique", "uniqueItems compares every item under one canonical encoding: in the default checker (isSliceOfUniqueItems) every key put into the seen-set is the JSON encoding (encoding/json.Marshal) of the item, and the verdict compares the number of items with the number of keys; a key taken from the item in another form shares the key space with the encodings of other kinds of values (the string `1` and the number 1) and two different items are reported equal", 2, func() {
+		fd := p.DeclOf("openapi3", "isSliceOfUniqueItems")
+		ff := core.NewFuncFacts(p, info, fd)
+		n := 0
+		ast.Inspect(fd.Body, func(nd ast.Node) bool {
+			as, ok := nd.(*ast.AssignStmt)
+			if !ok {
+				return true
+			}
+			for _, l := range as.Lhs {
+				ix, ok := ast.Unparen(l).(*ast.IndexExpr)
+				if !ok {
+					continue
+				}
+				if _, isMap := info.TypeOf(ix.X).Underlying().(*types.Map); !isMap {
+					continue
+				}
+				n++
+				key := fmt.Sprintf("unique:key#%d", n)
+				viaJSON := false
+				for f := range ff.Roots(ix.Index, false).Funcs {
+					if f.Pkg() != nil && f.Pkg().Path() == "encoding/json" && f.Name() == "Marshal" {
+						viaJSON = true
+					}
+				}
+				r.Check(viaJSON, key, p.Pos(ix.Pos()), "key is the JSON encoding of the item", "a seen-set key ("+core.ExprStr(ix.Index)+") is not the JSON encoding of the item: items of different kinds can collide, and an array of distinct items is rejected by uniqueItems")
+			}
+			return true
+		})
+		if n == 0 {
+			core.Fail("isSliceOfUniqueItems: no seen-set store found")
+		}
+		okRet := false
+		forEachReturnStmt(fd.Body, func(ret *ast.ReturnStmt) {
+			if len(ret.Results) == 1 {
+				s := core.ExprStr(ret.Results[0])
+				if strings.Contains(s, "len(") && strings.Contains(s, "==") {
+					okRet = true
+				}
+			}
+		})
+		r.Check(okRet, "unique:verdict", p.Pos(fd.Pos()), "verdict compares the two counts", "the verdict is no longer the comparison of the number of items with the number of distinct keys")
+	})
 }
